@@ -8,6 +8,7 @@ import (
 	"fmt"
 	"io"
 	"io/fs"
+	"os"
 	osexec "os/exec"
 	"strings"
 	gosync "sync"
@@ -258,6 +259,15 @@ func (c *Cmd) Wait() error {
 	}
 	if c.parentStdout != nil {
 		c.parentStdout.CloseQuiet()
+	}
+	// os/exec: when Stdout or Stderr is not an *os.File it is fed through a pipe by a copying
+	// goroutine, and Wait waits for that goroutine, i.e. until every descendant of the child
+	// that inherited the pipe has closed it. With an *os.File the descriptor is handed over
+	// and nobody waits.
+	if c.Process.Helper && c.Stderr != nil {
+		if _, isFile := c.Stderr.(*os.File); !isFile {
+			s.WaitForever(c.Process)
+		}
 	}
 	if st := c.Process.ExitStatus(); st != 0 {
 		return &ExitError{Status: st}
